@@ -61,8 +61,10 @@ if not ok:
     sys.exit(1)
 results = {}
 evd = "/tmp/seed-ev-" + sid
+leand = "/tmp/seed-lean-" + sid       # private copy of the Lean project: regenerated Gp/Gen must not disturb checks of /repo
+sh("rsync -a --delete %s/lean/ %s/" % (ROOT, leand))
 for pid in props:
-    e2 = dict(os.environ, VERIF_REPO=wt, VERIF_EVIDENCE_DIR=evd, VERIF_WORK_TAG=".seed-" + sid)
+    e2 = dict(os.environ, VERIF_REPO=wt, VERIF_EVIDENCE_DIR=evd, VERIF_WORK_TAG=".seed-" + sid, VERIF_LEAN_DIR=leand)
     t0 = time.time()
     rc, o = sh("./check %s --tier quick" % pid, cwd=ROOT, e=e2, timeout=7200)
     viol = [l for l in o.splitlines() if l.startswith("VIOLATION")]
@@ -71,6 +73,7 @@ for pid in props:
     for v in viol[:3]: print("   ", v[:260])
     shutil.rmtree(os.path.join(ROOT, ".work", pid + ".seed-" + sid), ignore_errors=True)
 shutil.rmtree(evd, ignore_errors=True)
+shutil.rmtree(leand, ignore_errors=True)
 sh("git checkout -- . && git clean -fdq", cwd=wt)
 d = os.path.join(ROOT, "seeded", sid)
 os.makedirs(d, exist_ok=True)
